@@ -25,6 +25,9 @@ DEFAULT_NET = {
     "refuse_ports": [],        # connection attempts to these ports are refused
     "blackhole_ports": [],     # connection attempts to these ports never complete
     "shutdown_enotconn": True,  # shutdown() after RST raises ENOTCONN (Linux)
+    "pipe_capacity": None,     # flow control: max bytes written but not yet read by the receiving application
+                               # (send buffer + receive window); None = unlimited.  When full, send() blocks
+                               # (TimeoutError after the socket timeout, BlockingIOError when non-blocking)
 }
 
 
@@ -33,7 +36,7 @@ class Pipe:
 
     __slots__ = (
         "conn", "dir", "buf", "last", "eof", "reset", "sent", "delivered",
-        "consumed", "blackhole", "last_delivery_t", "faults", "rx_sock",
+        "consumed", "blackhole", "last_delivery_t", "faults", "rx_sock", "space",
     )
 
     def __init__(self, conn, direction):
@@ -50,6 +53,7 @@ class Pipe:
         self.last_delivery_t = None
         self.faults = []
         self.rx_sock = None
+        self.space = object()   # writers blocked by flow control wait on this
 
 
 class Conn:
@@ -180,6 +184,7 @@ class Net:
         for p in (conn.c2s, conn.s2c):
             p.reset = True
             self.sim.wake(p)
+            self.sim.wake(p.space)
         self.sim.wake(self.sel_obj)
 
     def add_fault(self, cid, direction, kind, at):
@@ -372,6 +377,26 @@ class SimSocket:
                 self._rx.reset = True
             return len(data)
         n = len(data)
+        cap = net.cfg.get("pipe_capacity")
+        if cap is not None and n:
+            pipe = self._tx
+            while pipe.sent - pipe.consumed >= cap and not (peer is not None and peer._closed):
+                sim.count("net.send_blocked")
+                if self._timeout == 0:
+                    raise BlockingIOError(errno.EAGAIN, "would block")
+                if not self._wait(pipe.space):
+                    sim.count("net.send_timeout")
+                    sim.record("send_timeout", fd=self._fd)
+                    raise TimeoutError("timed out")
+                if self._closed:
+                    raise OSError(errno.EBADF, "Bad file descriptor")
+                if pipe.reset:
+                    raise ConnectionResetError(errno.ECONNRESET, "Connection reset by peer")
+            if peer is not None and peer._closed:
+                # the receiver went away while we were blocked (unread data at its end => RST)
+                sim.record("send_fail", fd=self._fd)
+                raise ConnectionResetError(errno.ECONNRESET, "Connection reset by peer")
+            n = min(n, cap - (pipe.sent - pipe.consumed))
         if n > 1 and net.cfg["short_write_pct"] and sim.chance("net", net.cfg["short_write_pct"]):
             n = 1 + sim.draw("net", n - 1)
             sim.count("fault.short_write")
@@ -410,6 +435,8 @@ class SimSocket:
         out = bytes(pipe.buf[:k])
         del pipe.buf[:k]
         pipe.consumed += k
+        if net.cfg.get("pipe_capacity") is not None:
+            sim.wake(pipe.space)
         return out
 
     def shutdown(self, how):
@@ -442,6 +469,8 @@ class SimSocket:
                 self._shut_wr = True
                 net.fin(self._tx)
             net.sim.wake(self._rx)
+            net.sim.wake(self._rx.space)   # a peer blocked in send() towards us: its write now fails
+            net.sim.wake(self._tx.space)
         net.sim.wake(net.sel_obj)
 
     def detach(self):
